@@ -81,6 +81,8 @@ def gen_type(rng, hl, depth=0, key=False):
     if k == 'set':
         return hl.tset(gen_type(rng, hl, depth + 1, True))
     if k == 'dict':
+        if rng.random() < 0.15:  # corner: values of a field-less type
+            return hl.tdict(hl.tstr, rng.choice([hl.tstruct(), hl.ttuple()]))
         return hl.tdict(gen_type(rng, hl, depth + 1, True), gen_type(rng, hl, depth + 1))
     if k == 'tuple':
         return hl.ttuple(*[gen_type(rng, hl, depth + 1, key) for _ in range(rng.randint(0, 3))])
@@ -692,6 +694,22 @@ def run(ctx):
     # ---- phase literal --------------------------------------------------------------------------
     import base64
 
+    def roundtrip(x, t, v, what):
+        """the accepted literal must be renderable (its value encodable under its type) and decode back to the value"""
+        ctx.count('contract_literal_roundtrip')
+        try:
+            enc = x.encoded_value            # what CSERenderer / head_str would do when the IR is sent
+        except Exception as err:
+            hook.pending.append(('literal/accepted-literal-cannot-be-encoded', f'{what} was accepted but rendering it raises {type(err).__name__}: {str(err)[:100]}', {}))
+            return
+        try:
+            back = t._from_encoding(base64.b64decode(enc))
+        except Exception as err:
+            hook.pending.append(('literal/encoding-cannot-be-decoded', f'{what}: decoding its own encoding raises {type(err).__name__}: {str(err)[:100]}', {}))
+            return
+        if not _same(_plain(back), _plain(v)):
+            hook.pending.append(('literal/encoding-does-not-decode-to-value', f'{what} decodes to {back!r:.200}', {}))
+
     N = ctx.pick(600, 3500)
     for i, rng in ctx.cases(N, 'literal'):
         t = gen_type(rng, hl)
@@ -713,14 +731,7 @@ def run(ctx):
                 hook.pending.append(('literal/value-does-not-satisfy-declared-type', f'hl.literal(v, {t}) accepted but {t}.typecheck(v) fails: {str(err)[:150]}', {}))
             x = e._ir
             if isinstance(x, ir.EncodedLiteral) and v is not None:
-                try:
-                    back = t._from_encoding(base64.b64decode(x.encoded_value))
-                    ctx.count('contract_literal_roundtrip')
-                    if not _same(_plain(back), _plain(v)):
-                        hook.pending.append(('literal/encoding-does-not-decode-to-value', f'EncodedLiteral of type {t} decodes to {back!r:.200}', {}))
-                except Exception as err:
-                    ctx.count('literal_roundtrip_failed')
-                    ctx.seen('literal_roundtrip_failures', type(err).__name__ + ': ' + str(err)[:70])
+                roundtrip(x, t, v, f'hl.literal(v, {t})')
         # (b) imputed type
         if v is not None:
             ok, e2 = guarded('literal(v)', lambda: hl.literal(v))
@@ -733,14 +744,7 @@ def run(ctx):
                     hook.pending.append(('literal/value-does-not-satisfy-imputed-type', f'hl.literal(v) has dtype {e2.dtype} but typecheck(v) fails: {str(err)[:150]}', {}))
                 x2 = e2._ir
                 if isinstance(x2, ir.EncodedLiteral):
-                    try:
-                        back = e2.dtype._from_encoding(base64.b64decode(x2.encoded_value))
-                        ctx.count('contract_literal_roundtrip')
-                        if not _same(_plain(back), _plain(v)):
-                            hook.pending.append(('literal/encoding-does-not-decode-to-value', f'hl.literal(v) with imputed type {e2.dtype} decodes to {back!r:.200}', {}))
-                    except Exception as err:
-                        ctx.count('literal_roundtrip_failed')
-                        ctx.seen('literal_roundtrip_failures', type(err).__name__ + ': ' + str(err)[:70])
+                    roundtrip(x2, e2.dtype, v, f'hl.literal(v) with imputed type {e2.dtype}')
                 elif isinstance(x2, (ir.F64, ir.F32, ir.I32, ir.I64, ir.Str)) and not isinstance(v, bool):
                     ctx.count('contract_literal_roundtrip')
                     want_cls = {float: ir.F64, int: (ir.I32, ir.I64), str: ir.Str}.get(type(v))
